@@ -241,7 +241,7 @@ inline bool bcat_compatible(BCat ada, BCat model) {
 // this list: a recurrence is no longer reproduced by any variant and is reported as unexplained.
 enum DevId { D_NFC, D_BIDI_LABEL, D_ZWNJ_LOOSE, D_T_MARK, D_T_VIRAMA, D_T_JOIN, D_T_BIDI, D_COUNT };
 inline const char* dev_name(int d) {
-  static const char* n[] = {"nfc-with-ada's-stale-data", "bidi-rule-only-on-rtl-labels", "zwnj-rule-non-adjacent",
+  static const char* n[] = {"nfc-with-adas-stale-tables", "bidi-rule-only-on-rtl-labels", "zwnj-rule-non-adjacent",
                             "table:combining-mark", "table:virama", "table:joining-type", "table:bidi-class"};
   return n[d];
 }
